@@ -118,8 +118,8 @@ LoadStep(st, i, r, ctx) ==
 Load(rows, ctx) ==
   LET F[i \in 0..Len(rows)] ==
         IF i = 0 THEN LoadInit
-        ELSE IF F[i-1].status # "ok" THEN F[i-1]
-        ELSE LoadStep(F[i-1], i, rows[i], ctx)
+        ELSE LET prev == F[i-1]                       \* evaluated once (a second reference would double the work per row)
+             IN IF prev.status # "ok" THEN prev ELSE LoadStep(prev, i, rows[i], ctx)
       st == F[Len(rows)]
   IN [status |-> st.status, kept |-> st.kept, main |-> st.main, ring |-> st.ring,
       kernelBinary |-> KernelBinaryCode(ctx),
